@@ -28,6 +28,7 @@ pub enum Form {
   BytesAttr,  // import b from "x" with { type: "bytes" };
   DynTextAttr, // await import("x", { with: { type: "text" } });
   BogusAttr,  // import z from "x" with { type: "bogus" };
+  SourcePhase, // import source w from "x";
 }
 
 #[derive(Clone, Debug)]
@@ -151,6 +152,7 @@ pub fn render(src: &ModSrc, is_js: bool) -> String {
         "await import(\"{}\", {{ with: {{ type: \"json\" }} }});\n",
         t
       )),
+      Form::SourcePhase => body.push_str(&format!("import source sp{} from \"{}\";\n", i, t)),
       Form::TextAttr => body.push_str(&format!("import t{} from \"{}\" with {{ type: \"text\" }};\n", i, t)),
       Form::BytesAttr => body.push_str(&format!("import b{} from \"{}\" with {{ type: \"bytes\" }};\n", i, t)),
       Form::DynTextAttr => body.push_str(&format!("await import(\"{}\", {{ with: {{ type: \"text\" }} }});\n", t)),
@@ -427,6 +429,11 @@ fn text_for(rng: &mut Rng, from: &str, to: &str) -> String {
 pub fn attr_class_target(to: &str, assets: bool) -> u8 {
   if attr_json_target(to) {
     return 1;
+  }
+  // targets that are only ever imported at source phase (`import source x from ...`)
+  let leaf = to.rsplit('/').next().unwrap_or("");
+  if leaf.starts_with("spx") || leaf.starts_with("wsp") {
+    return 9;
   }
   if !assets {
     return 0;
